@@ -481,6 +481,33 @@ func main() {
 	}
 	ft.WriteString("]\n\n")
 
+	// C20: the error classes a failed data send does NOT count as a data-message error — the body of hsms
+	// `isCountedSendErr` as the list of its errors.Is targets, plus the number of its other statements/calls
+	ft.WriteString("/-- the `errors.Is(err, X)` targets of hsms `isCountedSendErr`, in source order, and how many OTHER calls its body makes. -/\n")
+	var targets []string
+	other := 0
+	for _, f := range pkgs["hsms"].files {
+		for _, d := range f.Decls {
+			fd, ok := d.(*ast.FuncDecl)
+			if !ok || fd.Body == nil || fd.Recv != nil || fd.Name.Name != "isCountedSendErr" {
+				continue
+			}
+			ast.Inspect(fd.Body, func(n ast.Node) bool {
+				ce, ok := n.(*ast.CallExpr)
+				if !ok {
+					return true
+				}
+				if calleeName(ce.Fun) == "errors.Is" && len(ce.Args) == 2 {
+					targets = append(targets, leanStr(calleeName(ce.Args[1])))
+				} else {
+					other++
+				}
+				return true
+			})
+		}
+	}
+	fmt.Fprintf(&ft, "def hsms_countedSendErrExclusions : List String × Nat := ([%s], %d)\n\n", strings.Join(targets, ", "), other)
+
 	// C10: the active Start's dial / seal-guard / publish order (a socket dialed into a sealed transport is closed there)
 	stWant := map[string]bool{}
 	for _, n := range []string{"cfg.dial", "startGate.RLock", "startGate.RUnlock", "procCancel", "conn.Close", "rt.TCPUp"} {
